@@ -63,7 +63,9 @@ func (zcn *ZCNSmartContract) mint(trans *transaction.Transaction, inputData []by
 		return "", common.NewError(code, "no authorizers found")
 	}
 
-	threshold := int(math.RoundToEven(gn.PercentAuthorizers * float64(numAuth)))
+	// at least the configured fraction of the authorizers: round up (the small
+	// epsilon keeps 0.7*10 = 7.000000000000001 at 7)
+	threshold := int(math.Ceil(gn.PercentAuthorizers*float64(numAuth) - 1e-9))
 
 	// if number of slices exceeds limits the check only withing required range
 	if len(payload.Signatures) < threshold {
